@@ -10,6 +10,7 @@ use std::sync::OnceLock;
 
 use hsim::supervisor::{self, BatchOpts, CheckDef, Tier};
 
+mod fixtures;
 mod rigs;
 
 hsim::define_interposers!();
@@ -33,6 +34,10 @@ fn main() {
     }
     let base_seed = env_u64("VERIF_SEED").unwrap_or(DEFAULT_SEED);
     let workers = env_u64("VERIF_WORKERS").map(|w| w as usize).unwrap_or(16);
+    if args[0] == "gen-fixtures" {
+        fixtures::generate();
+        return;
+    }
     if args[0] == "selftest" {
         let which = args.get(2).cloned();
         let den = env_u64("VERIF_SELFTEST_DEN").unwrap_or(4);
